@@ -161,6 +161,9 @@ func init() {
 			pg := defaultPGen()
 			pg.plan = planOpts{chunk: true, faults: r.Chance(0.3)}
 			pg.aliasReset = true
+			if r.Chance(0.06) {
+				pg.trickle = 0.85
+			}
 			return genParserTrace(r, tier, ptOpts{types: parserTypes, pg: pg, wrapShare: 0.2, allowLarge: true})
 		},
 		Exec: execParser("C01"),
